@@ -765,4 +765,363 @@ theorem applyPolicy_specOK (sub : Int → Dur → Int) (now : Int) (l : List PSn
     | cons a b => simp
 
 
+
+/-! ## bucket keys (T1: the coefficients are regenerated from the current source) -/
+
+/-- the formulas are YYYYMMDDHH, YYYYMMDD, YYYYWW, YYYYMM, YYYY -/
+theorem key_formulas :
+    Restic.Gen.data_ymdh_year = 1000000 ∧ Restic.Gen.data_ymdh_month = 10000 ∧ Restic.Gen.data_ymdh_day = 100 ∧
+    Restic.Gen.data_ymdh_hour = 1 ∧ Restic.Gen.data_ymd_year = 10000 ∧ Restic.Gen.data_ymd_month = 100 ∧
+    Restic.Gen.data_ymd_day = 1 ∧ Restic.Gen.data_yw_year = 100 ∧ Restic.Gen.data_yw_week = 1 ∧
+    Restic.Gen.data_ym_year = 100 ∧ Restic.Gen.data_ym_month = 1 ∧ Restic.Gen.data_y_year = 1 ∧
+    Restic.Gen.data_ymdh_offset = 0 ∧ Restic.Gen.data_ymd_offset = 0 ∧ Restic.Gen.data_yw_offset = 0 ∧
+    Restic.Gen.data_ym_offset = 0 ∧ Restic.Gen.data_y_offset = 0 ∧ Restic.Gen.data_always_nr = 7 := by decide
+
+/-- laws of the civil-field oracle (checked by the driver on every record) -/
+structure CivilOK (c : Civil) : Prop where
+  month : 1 ≤ c.month ∧ c.month ≤ 12
+  day : 1 ≤ c.day ∧ c.day ≤ 31
+  hour : 0 ≤ c.hour ∧ c.hour ≤ 23
+  week : 1 ≤ c.isoWeek ∧ c.isoWeek ≤ 53
+
+/-- **key_injective**: two times get the same hourly key iff they agree on year, month, day and
+    hour (for every year, in particular 0..9999) -/
+theorem key_injective_hourly (c c' : Civil) (n n' : Nat) (h : CivilOK c) (h' : CivilOK c') :
+    bucketKey .hourly c n = bucketKey .hourly c' n' ↔
+      c.year = c'.year ∧ c.month = c'.month ∧ c.day = c'.day ∧ c.hour = c'.hour := by
+  obtain ⟨h1, h2, h3, _⟩ := h; obtain ⟨h1', h2', h3', _⟩ := h'
+  simp only [bucketKey, Restic.Gen.data_ymdh_year, Restic.Gen.data_ymdh_month, Restic.Gen.data_ymdh_day,
+    Restic.Gen.data_ymdh_hour]
+  constructor
+  · intro e; omega
+  · rintro ⟨e1, e2, e3, e4⟩; rw [e1, e2, e3, e4]
+
+theorem key_injective_daily (c c' : Civil) (n n' : Nat) (h : CivilOK c) (h' : CivilOK c') :
+    bucketKey .daily c n = bucketKey .daily c' n' ↔ c.year = c'.year ∧ c.month = c'.month ∧ c.day = c'.day := by
+  obtain ⟨h1, h2, _, _⟩ := h; obtain ⟨h1', h2', _, _⟩ := h'
+  simp only [bucketKey, Restic.Gen.data_ymd_year, Restic.Gen.data_ymd_month, Restic.Gen.data_ymd_day]
+  constructor
+  · intro e; omega
+  · rintro ⟨e1, e2, e3⟩; rw [e1, e2, e3]
+
+theorem key_injective_weekly (c c' : Civil) (n n' : Nat) (h : CivilOK c) (h' : CivilOK c') :
+    bucketKey .weekly c n = bucketKey .weekly c' n' ↔ c.isoYear = c'.isoYear ∧ c.isoWeek = c'.isoWeek := by
+  obtain ⟨_, _, _, h4⟩ := h; obtain ⟨_, _, _, h4'⟩ := h'
+  simp only [bucketKey, Restic.Gen.data_yw_year, Restic.Gen.data_yw_week]
+  constructor
+  · intro e; omega
+  · rintro ⟨e1, e2⟩; rw [e1, e2]
+
+theorem key_injective_monthly (c c' : Civil) (n n' : Nat) (h : CivilOK c) (h' : CivilOK c') :
+    bucketKey .monthly c n = bucketKey .monthly c' n' ↔ c.year = c'.year ∧ c.month = c'.month := by
+  obtain ⟨h1, _, _, _⟩ := h; obtain ⟨h1', _, _, _⟩ := h'
+  simp only [bucketKey, Restic.Gen.data_ym_year, Restic.Gen.data_ym_month]
+  constructor
+  · intro e; omega
+  · rintro ⟨e1, e2⟩; rw [e1, e2]
+
+theorem key_injective_yearly (c c' : Civil) (n n' : Nat) :
+    bucketKey .yearly c n = bucketKey .yearly c' n' ↔ c.year = c'.year := by
+  simp only [bucketKey, Restic.Gen.data_y_year]
+  constructor
+  · intro e; omega
+  · intro e; rw [e]
+
+/-- for years ≥ 0 (all that a snapshot file can carry: JSON allows 0..9999) no period key equals
+    the initial value -1 of `Last`; the yearly key of the year -1 does -/
+theorem key_ne_sentinel (k : Kind) (hk : k ≠ .last) (c : Civil) (n : Nat) (h : CivilOK c)
+    (hy : 0 ≤ c.year) (hiy : 0 ≤ c.isoYear) : bucketKey k c n ≠ -1 := by
+  obtain ⟨h1, h2, h3, h4⟩ := h
+  cases k with
+  | last => exact absurd rfl hk
+  | hourly => simp only [bucketKey, Restic.Gen.data_ymdh_year, Restic.Gen.data_ymdh_month, Restic.Gen.data_ymdh_day,
+      Restic.Gen.data_ymdh_hour]; omega
+  | daily => simp only [bucketKey, Restic.Gen.data_ymd_year, Restic.Gen.data_ymd_month, Restic.Gen.data_ymd_day]; omega
+  | weekly => simp only [bucketKey, Restic.Gen.data_yw_year, Restic.Gen.data_yw_week]; omega
+  | monthly => simp only [bucketKey, Restic.Gen.data_ym_year, Restic.Gen.data_ym_month]; omega
+  | yearly => simp only [bucketKey, Restic.Gen.data_y_year]; omega
+
+example : bucketKey .yearly ⟨-1, 3, 1, 0, -1, 9⟩ 0 = -1 := by decide
+
+/-! ## findLatestTimestamp -/
+
+theorem findLatest_fold (now : Int) (l : List PSnap) (acc : Int) :
+    let t := l.foldl (fun latest sn => if sn.time > latest ∧ sn.time < now then sn.time else latest) acc
+    acc ≤ t ∧ (∀ s ∈ l, s.time < now → s.time ≤ t) ∧ (t = acc ∨ ∃ s ∈ l, s.time = t ∧ s.time < now) := by
+  induction l generalizing acc with
+  | nil => simp
+  | cons x xs ih =>
+    simp only [List.foldl_cons]
+    by_cases hx : x.time > acc ∧ x.time < now
+    · simp only [hx, and_self, if_true]
+      have := ih x.time
+      refine ⟨by omega, ?_, ?_⟩
+      · intro s hs hn
+        rcases List.mem_cons.mp hs with hs | hs
+        · subst hs; exact this.1
+        · exact this.2.1 s hs hn
+      · rcases this.2.2 with h | ⟨s, hs, h⟩
+        · exact Or.inr ⟨x, by simp, h.symm, hx.2⟩
+        · exact Or.inr ⟨s, List.mem_cons_of_mem _ hs, h⟩
+    · simp only [hx, if_false]
+      have := ih acc
+      refine ⟨this.1, ?_, ?_⟩
+      · intro s hs hn
+        rcases List.mem_cons.mp hs with hs | hs
+        · subst hs
+          have : ¬ s.time > acc := fun h => hx ⟨h, hn⟩
+          omega
+        · exact this.2.1 s hs hn
+      · rcases this.2.2 with h | ⟨s, hs, h⟩
+        · exact Or.inl h
+        · exact Or.inr ⟨s, List.mem_cons_of_mem _ hs, h⟩
+
+/-- **within_spec (latest)**: the reference time of the `within` rules is the newest timestamp that
+    is not in the future (the zero time if there is none) -/
+theorem findLatest_spec (now : Int) (l : List PSnap) (t : Int) (h : findLatestTimestamp now l = some t) :
+    (∀ s ∈ l, s.time < now → s.time ≤ t) ∧ (t = zeroTime ∨ ∃ s ∈ l, s.time = t ∧ s.time < now) := by
+  cases l with
+  | nil => cases h
+  | cons x xs =>
+    simp only [findLatestTimestamp, Option.some.injEq] at h
+    have := findLatest_fold now (x :: xs) zeroTime
+    simp only at this
+    rw [h] at this
+    exact ⟨this.2.1, this.2.2⟩
+
+theorem findLatest_perm (now : Int) (l l' : List PSnap) (hp : l.Perm l') (t t' : Int)
+    (h : findLatestTimestamp now l = some t) (h' : findLatestTimestamp now l' = some t') : t = t' := by
+  have a := findLatest_spec now l t h
+  have b := findLatest_spec now l' t' h'
+  have z : zeroTime ≤ t := by
+    cases l with
+    | nil => cases h
+    | cons x xs => simp only [findLatestTimestamp, Option.some.injEq] at h; rw [← h]; exact (findLatest_fold now _ zeroTime).1
+  have z' : zeroTime ≤ t' := by
+    cases l' with
+    | nil => cases h'
+    | cons x xs => simp only [findLatestTimestamp, Option.some.injEq] at h'; rw [← h']; exact (findLatest_fold now _ zeroTime).1
+  rcases a.2 with ha | ⟨s, hs, hst, hsn⟩ <;> rcases b.2 with hb | ⟨s', hs', hst', hsn'⟩
+  · rw [ha, hb]
+  · have := a.1 s' (hp.mem_iff.mpr hs') hsn'; omega
+  · have := b.1 s (hp.mem_iff.mp hs) hsn; omega
+  · have := a.1 s' (hp.mem_iff.mpr hs') hsn'
+    have := b.1 s (hp.mem_iff.mp hs) hsn
+    omega
+
+
+
+/-! ## from positions to lists -/
+
+/-- the kept snapshots in terms of the flags -/
+theorem keepOf_eq (ds : List Decision) :
+    keepOf ds = (((ds.map (·.snap)).zip (ds.map (·.keep))).filter (·.2)).map (·.1) := by
+  rw [filter_map_zip]; simp [keepOf, Function.comp_def]
+
+theorem applyPolicy_keep (sub : Int → Dur → Int) (now : Int) (l : List PSnap) (p : Policy) (ds : List Decision)
+    (h : applyPolicy sub now l p = .ok ds) :
+    keepOf ds = (((sortNewestFirst l).zip
+      (flagsFrom (keptRuns ⟨sub, latestOf now l, p⟩) [] (sortNewestFirst l))).filter (·.2)).map (·.1) := by
+  rw [applyPolicy_eq] at h
+  injection h with h
+  rw [keepOf_eq, ← h, loop_snaps, loop_flags_runs ⟨sub, latestOf now l, p⟩ _ (sort_sorted l)]
+
+/-- every position: a snapshot of the sorted list is kept iff the rules (runs form) say so -/
+theorem kept_at (k : List PSnap → PSnap → Bool → Bool) (pre l : List PSnap) (x : PSnap) :
+    x ∈ (((l.zip (flagsFrom k pre l)).filter (·.2)).map (·.1)) ↔
+      ∃ a b, l = a ++ x :: b ∧ k (pre ++ a) x b.isEmpty = true := by
+  induction l generalizing pre with
+  | nil => simp [flagsFrom]
+  | cons s rest ih =>
+    simp only [flagsFrom, List.zip_cons_cons, List.filter_cons]
+    constructor
+    · intro hx
+      by_cases hk : k pre s rest.isEmpty = true
+      · simp only [hk, if_true, List.map_cons, List.mem_cons] at hx
+        rcases hx with hx | hx
+        · subst hx; exact ⟨[], rest, rfl, by simpa using hk⟩
+        · obtain ⟨a, b, hab, hkk⟩ := (ih (pre ++ [s])).mp hx
+          exact ⟨s :: a, b, by simp [hab], by simpa using hkk⟩
+      · simp only [hk, if_false] at hx
+        obtain ⟨a, b, hab, hkk⟩ := (ih (pre ++ [s])).mp hx
+        exact ⟨s :: a, b, by simp [hab], by simpa using hkk⟩
+    · rintro ⟨a, b, hab, hkk⟩
+      cases a with
+      | nil =>
+        simp only [List.nil_append, List.cons.injEq] at hab
+        obtain ⟨rfl, rfl⟩ := hab
+        simp only [List.append_nil] at hkk
+        simp [hkk]
+      | cons a0 a' =>
+        simp only [List.cons_append, List.cons.injEq] at hab
+        obtain ⟨rfl, hab⟩ := hab
+        have : x ∈ (((rest.zip (flagsFrom k (pre ++ [s]) rest)).filter (·.2)).map (·.1)) :=
+          (ih (pre ++ [s])).mpr ⟨a', b, hab, by simpa using hkk⟩
+        split
+        · exact List.mem_cons_of_mem _ this
+        · exact this
+
+/-- **keep_bucket_spec / within_spec / tag_spec, all at once**: a snapshot is kept iff at some
+    position of the sorted list `pre ++ x :: rest` one of the rules selects it. `keptRuns` is the
+    disjunction of the rules; under `RegularAt` it equals the documented `keptPeriods`. -/
+theorem keep_iff (sub : Int → Dur → Int) (now : Int) (l : List PSnap) (p : Policy) (ds : List Decision)
+    (h : applyPolicy sub now l p = .ok ds) (x : PSnap) :
+    x ∈ keepOf ds ↔ ∃ pre rest, sortNewestFirst l = pre ++ x :: rest ∧
+      keptRuns ⟨sub, latestOf now l, p⟩ pre x rest.isEmpty = true := by
+  rw [applyPolicy_keep sub now l p ds h, kept_at]
+  simp
+
+/-! ## keep-last -/
+
+def zeroDur : Dur := ⟨0, 0, 0, 0⟩
+
+/-- the policy `--keep-last n` alone -/
+def onlyLast (n : Int) : Policy :=
+  { last := n, hourly := 0, daily := 0, weekly := 0, monthly := 0, yearly := 0, within := zeroDur,
+    withinHourly := zeroDur, withinDaily := zeroDur, withinWeekly := zeroDur, withinMonthly := zeroDur,
+    withinYearly := zeroDur, tags := [] }
+
+theorem keptRuns_onlyLast (sub : Int → Dur → Int) (latest : Int) (n : Int) (pre : List PSnap) (s : PSnap) (isLast : Bool) :
+    keptRuns ⟨sub, latest, onlyLast n⟩ pre s isLast = (n == -1 || decide ((pre.length : Int) < n)) := by
+  have hz : ∀ k, countRuleRuns k 0 pre s isLast = false := by
+    intro k
+    simp only [countRuleRuns]
+    have : ¬ ((runHeads (-1) (keysOf k 0 pre) : Int) < 0) := by omega
+    simp [this]
+  simp only [keptRuns, tagRule, withinRule, onlyLast, countKinds, withinKinds, List.any_cons, List.any_nil,
+    Policy.countOf, hz, countRuleRuns_last, withinRuleRuns, Policy.withinOf, zeroDur, Dur.zero]
+  simp
+
+theorem take_of_flags (n : Nat) (pre l : List PSnap) :
+    (((l.zip (flagsFrom (fun pre _ _ => decide ((pre.length : Int) < (n : Int))) pre l)).filter (·.2)).map (·.1)) =
+      l.take (n - pre.length) := by
+  induction l generalizing pre with
+  | nil => simp [flagsFrom]
+  | cons s rest ih =>
+    simp only [flagsFrom, List.zip_cons_cons, List.filter_cons]
+    by_cases hlt : pre.length < n
+    · have : ((pre.length : Int) < (n : Int)) := by omega
+      simp only [this, decide_true, if_true, List.map_cons]
+      rw [ih (pre ++ [s])]
+      have e : n - pre.length = (n - (pre ++ [s]).length) + 1 := by simp; omega
+      rw [e, List.take_succ_cons]
+    · have : ¬ ((pre.length : Int) < (n : Int)) := by omega
+      simp only [this, decide_false, Bool.false_eq_true, if_false]
+      rw [ih (pre ++ [s])]
+      have e1 : n - pre.length = 0 := by omega
+      have e2 : n - (pre ++ [s]).length = 0 := by simp; omega
+      rw [e1, e2]; simp
+
+/-- **keep_last**: `--keep-last n` keeps exactly the `n` newest snapshots (the first `n` of the
+    stably sorted list) -/
+theorem keep_last (sub : Int → Dur → Int) (now : Int) (l : List PSnap) (n : Nat) (ds : List Decision)
+    (h : applyPolicy sub now l (onlyLast n) = .ok ds) : keepOf ds = (sortNewestFirst l).take n := by
+  rw [applyPolicy_keep sub now l _ ds h]
+  have : flagsFrom (keptRuns ⟨sub, latestOf now l, onlyLast n⟩) [] (sortNewestFirst l) =
+      flagsFrom (fun pre _ _ => decide ((pre.length : Int) < (n : Int))) [] (sortNewestFirst l) := by
+    apply flagsFrom_congr
+    intro pre s rest _
+    rw [keptRuns_onlyLast]
+    have : ((n : Int) == -1) = false := by
+      simp only [beq_eq_false_iff_ne, ne_eq]; omega
+    simp [this]
+  rw [this, take_of_flags]; simp
+
+/-- `--keep-last unlimited` keeps everything -/
+theorem keep_last_unlimited (sub : Int → Dur → Int) (now : Int) (l : List PSnap) (ds : List Decision)
+    (h : applyPolicy sub now l (onlyLast (-1)) = .ok ds) : removeOf ds = [] := by
+  rw [applyPolicy_eq] at h
+  injection h with h
+  have hfl := loop_flags_runs ⟨sub, latestOf now l, onlyLast (-1)⟩ _ (sort_sorted l)
+  rw [h] at hfl
+  have hall : ∀ d ∈ ds, d.keep = true := by
+    have : ∀ (pre l' : List PSnap), ∀ b ∈ flagsFrom (keptRuns ⟨sub, latestOf now l, onlyLast (-1)⟩) pre l', b = true := by
+      intro pre l'
+      induction l' generalizing pre with
+      | nil => simp [flagsFrom]
+      | cons s rest ih =>
+        intro b hb
+        simp only [flagsFrom, List.mem_cons] at hb
+        rcases hb with hb | hb
+        · rw [hb, keptRuns_onlyLast]; rfl
+        · exact ih _ b hb
+    intro d hd
+    exact this [] _ d.keep (hfl ▸ List.mem_map_of_mem hd)
+  simp only [removeOf, List.map_eq_nil_iff, List.filter_eq_nil_iff]
+  intro d hd; simp [hall d hd]
+
+/-! ## monotonicity -/
+
+/-- count `b` allows at least what count `a` allows (-1 = unlimited) -/
+def countLe (a b : Int) : Prop := b = -1 ∨ (a ≠ -1 ∧ a ≤ b)
+
+/-- the window of `d'` contains the window of `d`. For durations this is the oracle law
+    "a longer duration gives an earlier (or equal) window start" — a property of Go's `AddDate/Add`
+    for non-negative fields, validated by the harness on every case, not proved here. -/
+def winLe (sub : Int → Dur → Int) (latest : Int) (d d' : Dur) : Prop :=
+  d.zero = true ∨ (d'.zero = false ∧ sub latest d' ≤ sub latest d)
+
+structure PolicyLe (sub : Int → Dur → Int) (latest : Int) (p q : Policy) : Prop where
+  counts : ∀ k, countLe (p.countOf k) (q.countOf k)
+  within : winLe sub latest p.within q.within
+  withins : ∀ k, winLe sub latest (p.withinOf k) (q.withinOf k)
+  tags : ∀ t ∈ p.tags, t ∈ q.tags
+
+theorem any_mono {α} (l : List α) (f g : α → Bool) (h : ∀ a ∈ l, f a = true → g a = true) :
+    l.any f = true → l.any g = true := by
+  simp only [List.any_eq_true]
+  rintro ⟨a, ha, hf⟩; exact ⟨a, ha, h a ha hf⟩
+
+/-- **monotone, one position**: raising counts or durations or adding tag lists never un-keeps -/
+theorem keptRuns_mono (sub : Int → Dur → Int) (latest : Int) (p q : Policy) (hle : PolicyLe sub latest p q)
+    (pre : List PSnap) (s : PSnap) (isLast : Bool)
+    (h : keptRuns ⟨sub, latest, p⟩ pre s isLast = true) : keptRuns ⟨sub, latest, q⟩ pre s isLast = true := by
+  simp only [keptRuns, Bool.or_eq_true] at h ⊢
+  rcases h with ((h | h) | h) | h
+  · left; left; left
+    simp only [tagRule, List.any_eq_true] at h ⊢
+    obtain ⟨t, ht, hh⟩ := h
+    exact ⟨t, hle.tags t ht, hh⟩
+  · left; left; right
+    simp only [withinRule, Bool.and_eq_true, Bool.not_eq_true', decide_eq_true_eq] at h ⊢
+    rcases hle.within with hz | ⟨hz, hs⟩
+    · rw [hz] at h; exact absurd h.1 (by simp)
+    · exact ⟨hz, by omega⟩
+  · left; right
+    refine any_mono _ _ _ ?_ h
+    intro k _ hk
+    simp only [countRuleRuns, Bool.and_eq_true, Bool.or_eq_true, beq_iff_eq, decide_eq_true_eq] at hk ⊢
+    refine ⟨?_, hk.2⟩
+    rcases hle.counts k with hc | ⟨hc1, hc2⟩
+    · exact Or.inl hc
+    · rcases hk.1 with h1 | h1
+      · exact absurd h1 hc1
+      · exact Or.inr (by omega)
+  · right
+    refine any_mono _ _ _ ?_ h
+    intro k _ hk
+    simp only [withinRuleRuns, Bool.and_eq_true, Bool.not_eq_true', decide_eq_true_eq] at hk ⊢
+    refine ⟨?_, hk.2⟩
+    rcases hle.withins k with hz | ⟨hz, hs⟩
+    · rw [hz] at hk; exact absurd hk.1.1 (by simp)
+    · exact ⟨hz, by have := hk.1.2; omega⟩
+
+/-- **monotone**: with the same snapshot list, every snapshot kept under `p` is kept under any
+    policy `q` that is pointwise at least `p` -/
+theorem monotone (sub : Int → Dur → Int) (now : Int) (l : List PSnap) (p q : Policy) (ds ds' : List Decision)
+    (h : applyPolicy sub now l p = .ok ds) (h' : applyPolicy sub now l q = .ok ds')
+    (hle : PolicyLe sub (latestOf now l) p q) : ∀ x ∈ keepOf ds, x ∈ keepOf ds' := by
+  intro x hx
+  rw [keep_iff sub now l p ds h] at hx
+  rw [keep_iff sub now l q ds' h']
+  obtain ⟨pre, rest, hs, hk⟩ := hx
+  exact ⟨pre, rest, hs, keptRuns_mono sub _ p q hle pre x _ hk⟩
+
+theorem monotone_count_example : countLe 3 5 ∧ countLe 3 (-1) ∧ countLe 0 1 ∧ ¬ countLe (-1) 5 := by
+  refine ⟨Or.inr ⟨by decide, by decide⟩, Or.inl rfl, Or.inr ⟨by decide, by decide⟩, ?_⟩
+  rintro (h | ⟨h, _⟩)
+  · cases h
+  · exact h rfl
+
+
 end Restic.Props.C22
